@@ -102,6 +102,22 @@ Theorem C05_limit_monotone : forall opts probes r1 r2 fname ms o z1 z2 up,
 Proof. exact limit_monotone. Qed.
 Print Assumptions C05_limit_monotone.
 
+(* every documented limit of the modelled rules has one permissive direction in every probe that reads it - incl. the
+   combined probes of srp (one report per class: methods OR lines) and dry (long enough AND often enough) - so
+   C05_limit_monotone applies to each of them *)
+Theorem C05_limit_directions :
+  forallb (fun t => match t with (u, o, up) =>
+    has_opt (doc_opts u) o && negb (String.eqb o "enabled") && negb (String.eqb o "ignore")
+    && forallb (fun p => negb (mentions p o) || dir_eqb (limit_dir p o) up) (unit_probes u) end)
+    [("nesting", "max_nesting_depth", true); ("srp", "max_methods", true); ("srp", "max_loc", true);
+     ("dry", "min_duplicate_lines", true); ("dry", "min_occurrences", true);
+     ("magic-numbers", "max_small_integer", true); ("method-property", "max_body_statements", false);
+     ("stateless-class", "min_methods", true); ("collection-pipeline", "min_continues", true);
+     ("stringly-typed", "min_occurrences", true); ("stringly-typed", "min_values_for_enum", true);
+     ("stringly-typed", "max_values_for_enum", false)] = true.
+Proof. exact F_limits. Qed.
+Print Assumptions C05_limit_directions.
+
 Theorem C05_ran_is_body : forall opts gs probes res top fname ms n,
   unit_outcome opts gs probes false false false true res top fname ms = Ran n -> n = unit_body opts probes res fname ms.
 Proof. exact spec_ran_is_body. Qed.
@@ -155,8 +171,9 @@ Proof. exact subdirectory_irrelevant. Qed.
 Print Assumptions C05_subdirectory_irrelevant.
 
 (* 7. the listed defects are confined: the vector claimed for the current tree meets the specification on every
-      project configured through .thailint.yaml / .thailint.json, without CLI threshold options, well-typed limits, for the
-      units none of whose flags is listed (partial: the full statement is 0) *)
+      project configured through .thailint.yaml / .thailint.json, without CLI threshold options, well-typed limits, no
+      non-mapping written where a per-language block is expected, for the units none of whose flags is listed (partial:
+      the full statement is 0) *)
 Theorem C05_actual_partial : forall c,
   unit_clean (c_unit c) = true -> case_good c = true -> lang_good c = true ->
   p_pyproject (c_proj c) = Absent -> p_dash (c_proj c) = None -> c_overrides c = [] -> p_subdir (c_proj c) = false ->
@@ -164,6 +181,7 @@ Theorem C05_actual_partial : forall c,
      no_type_error (doc_opts (c_unit c)) (doc_guards (c_unit c)) (spec_res c (section_of (c_unit c) raw))) ->
   (forall k raw, spec_selected c = LDoc k raw ->
      guard_status (doc_opts (c_unit c)) (doc_guards (c_unit c)) (spec_res_top c (section_of (c_unit c) raw)) = StOk) ->
+  (forall k raw, spec_selected c = LDoc k raw -> forall l, nonmap (get l (section_of (c_unit c) raw)) = false) ->
   run config_actual c = spec c.
 Proof. exact actual_partial. Qed.
 Print Assumptions C05_actual_partial.
@@ -188,6 +206,15 @@ Proof.
         (conj F_opts (conj F_guards F_lang))))))))))))))).
 Qed.
 Print Assumptions C05_generated_layer.
+
+(* where the rules call .get on an entry without testing that it is a mapping, and whose language-block values no
+   validation looks at (these decide the listed defects non_mapping_* and language_block_value_not_validated) *)
+Theorem C05_type_checks :
+  lang_block_unchecked_own = ["nesting"; "srp"; "magic-numbers"; "print-statements"; "improper-logging"; "stringly-typed"]
+  /\ lang_block_unchecked_fixed = [("dry", ["python"; "typescript"; "javascript"])]
+  /\ lang_values_unvalidated = ["dry"] /\ section_type_unchecked = ["stateless-class"; "collection-pipeline"].
+Proof. exact F_type_checks. Qed.
+Print Assumptions C05_type_checks.
 
 (* --max-depth reaches every language sub-section (repaired: rust included); the other options reach no language
    sub-section (listed defect for srp; dry/pipeline have none) *)
